@@ -534,17 +534,18 @@ OBS_REDUCED = ["set(11)", "set_if_not_eq(1)", "set_if_not_eq(10)", "set_if_hash_
                "counts", "into_shared"]
 
 
-def obs_exhaustive(maxlen, heads=("unique", "shared", "guard"), prefixes=("", "subscribe ; poll(0) ; ")):
+def obs_exhaustive(maxlen, heads=("unique", "shared", "guard"), prefixes=("", "subscribe ; poll(0) ; "), counts=True):
     cases = []
+    alpha = OBS_REDUCED if counts else [o for o in OBS_REDUCED if o != "counts"]
     for head in heads:
         for pre in prefixes:
             for n in range(1, maxlen + 1):
-                for seq in itertools.product(OBS_REDUCED, repeat=n):
-                    cases.append("%s :: %s%s ; poll(0) ; counts" % (head, pre, " ; ".join(seq)))
+                for seq in itertools.product(alpha, repeat=n):
+                    cases.append("%s :: %s%s ; poll(0)%s" % (head, pre, " ; ".join(seq), " ; counts" if counts else ""))
     return cases
 
 
-def obs_random(rng, n, heads=("unique", "shared", "guard"), minlen=10, maxlen=40):
+def obs_random(rng, n, heads=("unique", "shared", "guard"), minlen=10, maxlen=40, counts=True):
     cases = []
     vals = (0, 1, 10, 11, 12, 21, 22, 35)
     for _ in range(n):
@@ -599,6 +600,8 @@ def obs_random(rng, n, heads=("unique", "shared", "guard"), minlen=10, maxlen=40
             if l:
                 ops.append("poll(%d)" % k)
                 ops.append("sget(%d)" % k)
+        if not counts:
+            ops = [o for o in ops if o != "counts"]
         cases.append("%s :: %s" % (head, " ; ".join(ops)))
     return cases
 
